@@ -258,7 +258,11 @@ func VerifC14Patch() {
 	code2 := vCLIRun(append(append([]string{}, f.argv()...), "-p", "d.txt", "a.json"))
 	vAssert(code2 == 0, "jd -p rejected the diff printed by jd")
 	out := vCLIStdout()
-	vObserve("patched", out)
+	if f.set || f.mset {
+		vObserve("~patched", out) // member order follows the hash codes: not compared with the native run
+	} else {
+		vObserve("patched", out)
+	}
 	p, err := jd.ReadJsonString(out)
 	vAssert(err == nil, "jd -p printed something that is not JSON")
 	vAssert(p.Equals(b, f.options()...), "jd -p applied to a does not reproduce b")
